@@ -27,7 +27,7 @@ def gen(tier, seed):
         v = rnd.choice(starts)
         cases.append({"U": fsl(v["U"]), "p": v["p"], "kind": v["kind"], "len": rnd.randint(1, 8),
                       "seed": rnd.randint(0, 2 ** 30), "rational": rnd.random() < 0.2, "dim": rnd.choice((1, 1, 2)),
-                      "third": rnd.choice(("copy", "independent"))})
+                      "third": rnd.choice(("copy", "independent", "bare"))})
     return cases
 
 
@@ -194,6 +194,12 @@ def impl(case):
     if case["third"] == "copy":
         c2 = deepcopy(c0)
         kv2 = kvobj
+    elif case["third"] == "bare":
+        # weights but no control points yet (the order used when points are fitted with a rational basis afterwards):
+        # every knot / degree operation must carry the weights along
+        kv2 = KnotVector(U)
+        c2 = Curve(kv2)
+        c2.weights = rand_weights(rnd, n)
     else:
         kv2 = KnotVector([U[0]] * 2 + [U[-1]] * 2)
         c2 = Curve(kv2, points(pts_json(rand_points(rnd, 2, dim)), dim == 1))
@@ -207,7 +213,13 @@ def impl(case):
     c3.weights = [Fraction(2), Fraction(3), Fraction(5, 2)]
     c4 = Curve([a, a, a + (b - a) * Fraction(9, 10), b, b], points(pts_json(rand_points(rnd, 3, dim)), dim == 1))
     c4.weights = [Fraction(1, 100), Fraction(1, 100), Fraction(1)]
-    curves = [c0, c1, c2, c3, c4]
+    # a refinement of c0 by one more copy of an existing interior knot (same degree, same distinct knots, other multiplicities):
+    # comparing with it must not refine the coarser operand in place
+    c5 = deepcopy(c0)
+    inner = [x for x in sorted(set(U[p + 1:len(U) - p - 1])) if U.count(x) <= p]
+    if inner:
+        c5.knot_insert([inner[0]])
+    curves = [c0, c1, c2, c3, c4, c5]
     kvs = [kvobj, kv2]
 
     def world():
